@@ -374,6 +374,8 @@ func independent(seed uint64, id int, rounds int, bad *[]string, mu *sync.Mutex,
 
 func raceMain() {
 	e := common.New(1818)
+	// first uses of predefined CMaps: before anything else in this process touches font/cmap
+	stress := map[string]any{"cmap": cmapStress(e, e.Pick(30, 120))}
 	rounds := e.Pick(8, 300)
 	workers := 8
 	nops := e.Pick(60, 120)
@@ -428,8 +430,9 @@ func raceMain() {
 			e.Fail(sig, m, map[string]any{"seed": e.Seed, "round": round, "round_seed": seed})
 		}
 	}
+	stress["exclusive"] = exclStress(e, e.Pick(12000, 80000))
 	pool := poolPhase(e, e.Pick(2, 3)) // sync.Pool drops items at random in a race build: the plain build is the deterministic one
 	e.Finish("random mixes of Reader.Get / DecodeStream / Decode / DecodeExclusive / StoreOrLoadPair from 8 goroutines on one Extractor, plus independent Writers/Readers, cmap.Predefined and mapping.Get*Mapping in 3 more goroutines, under the Go scheduler in a -race build (a TEST: sampled schedules)",
-		map[string]any{"race_rounds": rounds, "race_operations": totalOps.Load(), "race_functional_failures": nfail, "pool_in_race_build": pool, "errors_in_race_build": errPhase(e), "concurrent_reads_in_race_build": cryptPhase(e, e.Pick(8, 100))})
+		map[string]any{"race_rounds": rounds, "race_operations": totalOps.Load(), "race_functional_failures": nfail, "pool_in_race_build": pool, "errors_in_race_build": errPhase(e), "concurrent_reads_in_race_build": cryptPhase(e, e.Pick(8, 100)), "stress_in_race_build": stress})
 	fmt.Printf("race mode: %d rounds, %d operations, %d functional failures\n", rounds, totalOps.Load(), nfail)
 }
